@@ -5,7 +5,7 @@
    Bounded (all DAGs on <= 4 nodes, all disjoint L,S, all ordered pairs, all Z; kernel computation):
    mag_adjacency_bounded_4, mag_independence_bounded_4 (the full unbounded statement is Spec.mag_full_stmt). *)
 From Coq Require Import List Arith Bool.
-From PG Require Import Base.ListSet Graph.MGraph Graph.MSep C06.Model C06.Spec C06.Enum C06.Proofs C06.NodeLevel C06.Bounded_n4 C06.BoundedProp C06.Unbounded C06.UnboundedMag C06.UnboundedInd.
+From PG Require Import Base.ListSet Graph.MGraph Graph.MSep C06.Model C06.Spec C06.Enum C06.Proofs C06.NodeLevel C06.Bounded_n4 C06.BoundedProp C06.Unbounded C06.UnboundedMag C06.UnboundedInd C06.UnboundedBwd.
 Import ListNotations.
 
 Theorem inducing_exact : inducing_exact_stmt.
@@ -87,10 +87,31 @@ Print Assumptions mag_adjacency_all.
 
 (* half of the independence clause (Richardson-Spirtes Thm 4.18) for ALL DAGs: d-separation given Z u S in the DAG implies
    m-separation given Z in the MAG (every m-connecting path of the MAG unfolds into an open walk of the DAG).
-   The converse (m-separation in the MAG => d-separation in the DAG) is proved only to n = 4 (mag_independence_bounded_4). *)
+   The converse is mag_independence_bwd below. *)
 Theorem mag_independence_fwd : forall d L S,
   is_dag d -> incl (L ++ S) (V d) -> (forall v, In v L -> ~ In v S) ->
   forall x y Z, In x (obs d L S) -> In y (obs d L S) -> x <> y -> incl Z (obs d L S) ->
     dsep d [x] [y] (Z ++ S) -> msep (dag_to_mag_model d L S) [x] [y] Z.
 Proof. exact C06.UnboundedInd.mag_independence_fwd. Qed.
 Print Assumptions mag_independence_fwd.
+
+(* the converse (Thm 4.18 <=) for ALL DAGs: a d-connecting path of the DAG given Z u S is brought into a normal form (colliders
+   in An(S) or in Z \ An(S)), cut at its observed non-colliders and Z-colliders into inducing walks, normalised by cutting closed
+   segments and absorbing Z-colliders that are ancestors of a neighbour, and read as an open walk of the (ancestral) MAG *)
+Theorem mag_independence_bwd : forall d L S,
+  is_dag d -> incl (L ++ S) (V d) -> (forall v, In v L -> ~ In v S) ->
+  forall x y Z, In x (obs d L S) -> In y (obs d L S) -> x <> y -> incl Z (obs d L S) ->
+    msep (dag_to_mag_model d L S) [x] [y] Z -> dsep d [x] [y] (Z ++ S).
+Proof. exact C06.UnboundedBwd.mag_independence_bwd. Qed.
+Print Assumptions mag_independence_bwd.
+
+(* the independence clause of the property for ALL DAGs, all disjoint L, S *)
+Theorem mag_independence_all : forall d L S,
+  is_dag d -> incl (L ++ S) (V d) -> (forall v, In v L -> ~ In v S) -> mag_independence_stmt d L S.
+Proof. exact C06.UnboundedBwd.mag_independence_all. Qed.
+Print Assumptions mag_independence_all.
+
+(* the full statement of C06/Spec.v: adjacency and independence clauses, all sizes *)
+Theorem mag_full : mag_full_stmt.
+Proof. exact C06.UnboundedBwd.mag_full. Qed.
+Print Assumptions mag_full.
